@@ -53,6 +53,24 @@ def worker(pid, desc_file, out_file):
     watchdog = job.get("timeout")
     if watchdog:
         faulthandler.dump_traceback_later(max(1, watchdog - 2), exit=False)
+
+        def save_partial():
+            # a shard that runs into its time limit keeps what its monitors recorded so far (violations are
+            # observations of real executions; the unfinished rest makes the run inconclusive, never "held")
+            time.sleep(max(1, watchdog - 10))
+            for _ in range(20):
+                try:
+                    res = ctx.result()
+                    res["crash"] = f"shard still running after {watchdog - 10} s: partial results kept"
+                    with open(out_file, "w") as fh:
+                        json.dump(res, fh)
+                    break
+                except Exception:  # noqa: BLE001 - the workload thread is mutating the context; try again
+                    time.sleep(0.05)
+            sys.stdout.flush()
+            os._exit(0)
+        import threading
+        threading.Thread(target=save_partial, daemon=True).start()
     try:
         if job.get("replay_case") is not None:
             prop.replay(ctx, job["replay_case"])
